@@ -68,7 +68,25 @@ def main():
     meta['checks'] = {}
     for cid in [prop] + extra:
         t0 = time.time()
-        rc, out = run(['/verif/tools/with_patch.sh', patch, '/verif/check', cid, tier], timeout=7200)
+        slot = os.environ.get('EVAL_SLOT')
+        if slot:
+            # a scratch worktree of /repo's HEAD with its own build directory: several evaluations can run side by side
+            wtree, bdir = f'/tmp/evalslots/repo{slot}', f'/verif/.build-slot{slot}'
+            if not os.path.isdir(wtree):
+                os.makedirs('/tmp/evalslots', exist_ok=True)
+                run(['git', '-C', '/repo', 'worktree', 'add', '-q', '--detach', wtree, 'HEAD'])
+            run('git checkout -q --detach $(git -C /repo rev-parse HEAD) && git checkout -q -- . && git clean -fdq', cwd=wtree)
+            rc, out = run(['git', 'apply', patch], cwd=wtree)
+            if rc == 0:
+                env2 = dict(ENV, VERIF_REPO=wtree, VERIF_BUILD=bdir)
+                try:
+                    p = subprocess.run(['/verif/check', cid, tier], env=env2, capture_output=True, text=True, timeout=7200)
+                    rc, out = p.returncode, p.stdout + p.stderr
+                except subprocess.TimeoutExpired as e:
+                    rc, out = 124, 'TIMEOUT ' + str(e)
+            run('git checkout -q -- . && git clean -fdq', cwd=wtree)
+        else:
+            rc, out = run(['/verif/tools/with_patch.sh', patch, '/verif/check', cid, tier], timeout=7200)
         kinds = {}
         for l in out.splitlines():
             mm = re.match(r'violation (\S+) case=(\S+) kind=(\S+)', l)
@@ -78,8 +96,9 @@ def main():
         meta['checks'][cid] = {'tier': tier, 'exit': rc, 'caught': rc == 1, 'violation_kinds': kinds, 'result': res[-1] if res else '', 'wall_s': round(time.time() - t0, 1),
                                'inconclusive': [l for l in out.splitlines() if l.startswith('INCONCLUSIVE')][:3]}
         print(('CAUGHT ' if rc == 1 else 'MISSED ') + cid, tier, kinds, res[-1][:120] if res else out[-300:])
-    rc, out = run('git status --porcelain', cwd='/repo')
-    assert out.strip() == '', '/repo not clean after checks: ' + out
+    if not os.environ.get('EVAL_SLOT'):
+        rc, out = run('git status --porcelain', cwd='/repo')
+        assert out.strip() == '', '/repo not clean after checks: ' + out
     d = os.path.join('/verif/seeded', f'{prop}-{os.environ.get("SEED_PREFIX","")}{sub}')
     os.makedirs(d, exist_ok=True)
     shutil.copy(patch, os.path.join(d, 'patch.diff'))
@@ -95,6 +114,7 @@ def main():
         for k, v in prev_checks.items():
             meta['checks'].setdefault(k + '@previous', v)
     json.dump(meta, open(old, 'w'), indent=1)
-    find = subprocess.run('find /verif/replays -type f -delete', shell=True)
+    if not os.environ.get('EVAL_SLOT'):
+        find = subprocess.run('find /verif/replays -type f -delete', shell=True)
 
 main()
